@@ -945,6 +945,8 @@ def header_cases(order):
 
 
 def header_fields(case):
+    if "fields" in case:
+        return dict(case["fields"])
     h = dict(HEADER_BASE[case["base"]])
     for f, i in case["devs"]:
         h[f] = HEADER_PALETTE[f][i]
@@ -2134,6 +2136,15 @@ def reuse_obj_cases(tier):
                                                                                  ["hs", "sh"], ["sh", "hs"]):
                                 yield {"kind": "reuse", "fam": "obj", "cont": cont, "origin": origin, "touch": touch,
                                        "text_first": text_first, "seq": [a, b], "modes": modes}
+                    if q and touch:
+                        # other size on the same code path and back (shorter / longer), every getter and the
+                        # serialisation touched in between
+                        for a in REUSE_SMALL:
+                            for b in REUSE_SMALL:
+                                if a != b:
+                                    yield {"kind": "reuse", "fam": "obj", "cont": cont, "origin": origin,
+                                           "touch": touch, "text_first": text_first, "seq": [a, b, a],
+                                           "modes": ["hs", "hs", "hs"]}
                     if q and not touch and text_first:
                         # error path: valid, refused, valid - the next valid write behaves as on a fresh object
                         for a in REUSE_SMALL:
@@ -2252,6 +2263,7 @@ def sdf_observe(f, text_first):
             except Exception as e:  # noqa: BLE001
                 o["rec:" + nm] = ("exception", type(e).__name__)
         o["contains"] = [nm in f for nm in SDF_NAMES + ["C"]]
+        o["lines"] = list(f.lines)          # cached-property style access; must follow the records
         return o
 
     if text_first:
@@ -3235,12 +3247,435 @@ def eval_lazy(case):
         return [(site, f.mode, f.what, f.expected, f.observed, "%s+forced_%s_%s" % (case["diff"], case["fa"], case["fb"]))]
 
 
+# ===========================================================================
+# second dimension audit: identity (A), combo (B + C), derived (E); D extends "reuse"
+# ===========================================================================
+IDENTITY_SCENARIOS = ["metadata_of_metadata", "metadata_of_empty", "sdfile_of_dict", "sdfile_of_empty_dict",
+                      "ctab_lines_twice", "sdfile_lines", "get_structure_twice", "header_twice", "from_mol_twice",
+                      "from_mol_single_conformer", "deserialize_twice"]
+
+
+def identity_cases(tier):
+    for sc in IDENTITY_SCENARIOS:
+        for cid in ("c0", "c1", "c2"):
+            yield {"kind": "audit", "fam": "identity", "sc": sc, "cid": cid}
+
+
+def eval_identity(case):
+    """an operation that yields a NEW object must not hand out its operand (or its internal dict/list), also when
+    there is nothing to do; after a re-binding edit of the result the operand still equals its model"""
+    from biotite.structure.io import mol as molio
+
+    sc, cid, pal = case["sc"], case["cid"], case["pal"]
+    c = REUSE_CONTENTS[cid]
+    m, ver, atoms = reuse_atoms(cid, pal)
+    kw = {} if ver is None else {"version": ver}
+    site = "identity[%s]" % sc
+
+    def rec():
+        r = molio.SDRecord(header=make_header(REUSE_HEADERS[c["h"]]), metadata=reuse_metadata(c["meta"]))
+        r.set_structure(atoms, **kw)
+        return r
+
+    try:
+        if sc in ("metadata_of_metadata", "metadata_of_empty"):
+            src = reuse_metadata(c["meta"] if sc == "metadata_of_metadata" else [])
+            want = meta_list(src)
+            new = molio.Metadata(src)
+            if new is src or new._metadata is src._metadata:
+                raise Fail("result_is_operand", "Metadata(metadata) hands out its operand / its internal dict", None, None)
+            new["added"] = "x"
+            for k in list(new)[:1]:
+                del new[k]
+            if meta_list(src) != want:
+                raise Fail("operand_changed", "editing Metadata(metadata) changed the operand", want, meta_list(src))
+        elif sc in ("sdfile_of_dict", "sdfile_of_empty_dict"):
+            d = {"A": rec(), "B": rec()} if sc == "sdfile_of_dict" else {}
+            keys = list(d)
+            f = molio.SDFile(d)
+            f["C"] = rec()
+            if "A" in f:
+                del f["A"]
+            if list(d) != keys:
+                raise Fail("operand_changed", "editing SDFile(records) changed the dict that was passed", keys, list(d))
+            d["Z"] = rec()
+            if "Z" in f:
+                raise Fail("result_shares_operand", "SDFile(records) shares the dict that was passed", None, None)
+        elif sc == "ctab_lines_twice":
+            from biotite.structure.io.mol.ctab import write_structure_to_ctab
+
+            l1 = write_structure_to_ctab(atoms, **kw)
+            keep = list(l1)
+            l1.append("garbage")
+            l1[0] = "garbage"
+            l2 = write_structure_to_ctab(atoms, **kw)
+            if l2 != keep or l2 is l1:
+                raise Fail("result_shared_between_calls", "editing the list returned by write_structure_to_ctab "
+                           "changes the next result", keep[:3], l2[:3])
+            e1 = write_structure_to_ctab(atoms[:0], **kw)
+            e1.append("x")
+            if write_structure_to_ctab(atoms[:0], **kw)[-1] != "M  END":
+                raise Fail("result_shared_between_calls", "empty molecule: result list shared between calls", None, None)
+        elif sc == "sdfile_lines":
+            f = molio.SDFile({"A": rec()})
+            text = f.serialize()
+            ln = f.lines
+            ln.append("garbage")
+            ln[0] = "garbage"
+            mf = molio.MOLFile()
+            mf.set_structure(atoms, **kw)
+            keep = list(mf.lines)
+            if f.serialize() != text or f.lines != text.splitlines():
+                raise Fail("operand_changed", "editing SDFile.lines changed the file", None, None)
+            ctab = molio.MOLFile.read(io.StringIO("\n".join(keep) + "\n"))
+            if ctab.lines != keep:
+                raise Fail("operand_changed", "MOLFile.read", None, None)
+        elif sc == "get_structure_twice":
+            for obj in (molio.MOLFile(), molio.SDRecord()):
+                obj.set_structure(atoms, **kw)
+                a1, a2 = obj.get_structure(), obj.get_structure()
+                if a1 is a2 or a1.bonds is a2.bonds or a1.coord is a2.coord:
+                    raise Fail("result_shared_between_calls", "get_structure() returns the same object twice", None, None)
+                want = snapshot(a2)
+                a1.set_annotation("extra", np.zeros(a1.array_length()))
+                a1.bonds = None
+                a1.coord = np.zeros((a1.array_length(), 3), dtype=np.float32)
+                if snapshot(a2) != want or snapshot(obj.get_structure()) != want:
+                    raise Fail("operand_changed", "editing one result of get_structure() changed another", None, None)
+        elif sc == "header_twice":
+            for cont in ("mol", "rec"):
+                obj = reuse_new(cont)
+                reuse_write(obj, cont, cid, "hs", pal)
+                obj2 = reuse_parse(reuse_text(obj, cont), cont)
+                want = header_tuple(obj2.header)
+                h = obj2.header
+                # re-binding the attribute of the file object must not be needed for a consistent view
+                r = consistent(obj2, cont)
+                if r or header_tuple(h) != want:
+                    raise Fail("getter_vs_text_" + (r[0] if r else "header"), "header getter", want, header_tuple(h))
+        elif sc in ("from_mol_twice", "from_mol_single_conformer"):
+            from biotite.interface.rdkit import from_mol, to_mol
+
+            rdkit()
+            mm = dict(m, ann=[])
+            S = rd_atoms(mm, 0 if sc == "from_mol_single_conformer" else 2)
+            mol = to_mol(S)
+            e = rd_extract(mol)
+            b1 = from_mol(mol, add_hydrogen=False)
+            b2 = from_mol(mol, add_hydrogen=False)
+            if b1 is b2 or b1.bonds is b2.bonds or b1.coord is b2.coord or b1.element is b2.element:
+                raise Fail("result_shared_between_calls", "from_mol returns shared objects", None, None)
+            want = stack_snapshot(b2)
+            b1.bonds = None
+            b1.set_annotation("charge", np.full(b1.array_length(), 9))
+            b1.del_annotation("b_factor")
+            one = from_mol(mol, conformer_id=0, add_hydrogen=False)
+            one.coord = np.zeros_like(one.coord)
+            if stack_snapshot(b2) != want or rd_extract(mol) != e or stack_snapshot(from_mol(mol, add_hydrogen=False)) != want:
+                raise Fail("operand_changed", "re-binding edits of one from_mol result reach the Mol / another result",
+                           None, None)
+        elif sc == "deserialize_twice":
+            text = rec().serialize()
+            r1, r2 = molio.SDRecord.deserialize(text), molio.SDRecord.deserialize(text)
+            r1.metadata["added"] = "x"
+            r1.header.comments = "edited"
+            r1.set_structure(reuse_atoms("c3", pal)[2])
+            if r2.serialize() != text or meta_list(r2.metadata) != meta_list(reuse_metadata(c["meta"])):
+                raise Fail("result_shared_between_calls", "two SDRecord.deserialize results share state", None, None)
+            f1 = molio.SDFile.deserialize(text + "$$$$\n")
+            f2 = molio.SDFile.deserialize(text + "$$$$\n")
+            nm = list(f1.keys())[0]
+            f1[nm].metadata["added"] = "x"
+            del f1[nm]
+            if list(f2.keys()) != [nm] or f2.serialize() != text + "$$$$\n":
+                raise Fail("result_shared_between_calls", "two SDFile.deserialize results share state", None, None)
+        return []
+    except Fail as f:
+        return [(site, f.mode, f.what, f.expected, f.observed, case["sc"])]
+
+
+# ---- combo: values by which the code branches (independent of the seed) and two awkward features in one value
+COMBO_ELEMENTS = ["R#", "C'", 'C"', "'\"", "D", "T", "X", "*"]      # Rgroup marker, quote characters (V3000 tokeniser)
+COMBO_VALUES = [" >a", "a\n > <q>\nb", ">a\n$$$$", "$$$$ x\n>", " \n>a", "a \n\n b", "a\rb", "a\r\nb", "a\x0cb",
+                "a b", "\t>a", "> <k>\n$$$$\n\n x "]
+COMBO_HEADERS = [{"mol_name": "M  END" + "x" * 74}, {"mol_name": "M  END" + "x" * 75}, {"comments": "$$$$" + "x" * 77},
+                 {"mol_name": "> <a> $$$$", "comments": "M  END $$$$"}, {"comments": "M  END", "mol_name": "M  END"}]
+
+
+def combo_cases(tier):
+    for el in COMBO_ELEMENTS:
+        for ver in VERSIONS:
+            for atom in (0, 1):
+                yield {"kind": "audit", "fam": "combo", "sub": "element", "el": el, "ver": ver, "atom": atom}
+    for v in COMBO_VALUES:
+        for ctor in ("dict", "setitem"):
+            yield {"kind": "audit", "fam": "combo", "sub": "value", "v": v, "ctor": ctor}
+    for i in range(len(COMBO_HEADERS)):
+        for mode in HEADER_MODES:
+            yield {"kind": "audit", "fam": "combo", "sub": "header", "i": i, "mode": mode}
+    for n in (999, 1000):
+        for ver in VERSIONS:
+            yield {"kind": "audit", "fam": "combo", "sub": "index_and_charge_width", "n": n, "ver": ver}
+    for opt in ("3D", "2D", "explicit_h_true", "explicit_h_true_no_h", "add_hydrogen_true_with_h"):
+        for depth in (0, 2):
+            yield {"kind": "audit", "fam": "combo", "sub": "rd_option", "opt": opt, "depth": depth}
+
+
+def norm_breaks(v):
+    return "\n".join(ln.strip() for ln in v.splitlines())
+
+
+def eval_combo(case):
+    import biotite.structure as struc
+    from biotite.structure.io import mol as molio
+
+    sub, pal = case["sub"], case["pal"]
+    site = "combo[%s]" % sub
+    try:
+        if sub == "element":
+            # symbols the readers treat by value: unspecified (exception anywhere or exact)
+            m = chain_mol(2, pal)
+            m["elem"][case["atom"]] = case["el"]
+            a = build_atoms(m)
+            try:
+                text, lines, _ = write_container(a, m, case["ver"], "ctab")
+                back = read_container(text, lines, "ctab")
+            except Fail:
+                raise
+            except Exception:  # noqa: BLE001
+                return "unspecified_refused", []
+            check_readback(m, back, ctfile.version_of(lines[0]), [])
+            return "unspecified_exact", []
+        if sub == "value":
+            v = case["v"]
+            r = molio.SDRecord()
+            try:
+                if case["ctor"] == "dict":
+                    r.metadata = molio.Metadata({"k": v, "z": "end"})
+                else:
+                    r.metadata["k"] = v
+                    r.metadata["z"] = "end"
+                r.set_structure(build_atoms(chain_mol(2, pal)))
+                f = molio.SDFile()
+                f["n"] = r
+                text = f.serialize()
+                g = molio.SDFile.read(io.StringIO(text))
+                names = list(g.keys())
+                got = [(key_tuple(k)["name"], val) for k, val in g[names[0]].metadata.items()] if names else None
+            except Exception:  # noqa: BLE001
+                return "unspecified_refused", []
+            if names != ["n"]:
+                raise Fail("readback_records", "value combining two awkward features broke the record framing", ["n"], names)
+            if got not in ([("k", v), ("z", "end")], [("k", norm_breaks(v)), ("z", "end")]):
+                raise Fail("readback_changed", "value combining two awkward features changed silently (beyond the "
+                           "accepted normalisation of line ends / line edge blanks)", [("k", v), ("z", "end")], got)
+            return ("unspecified_exact" if got[0][1] == v else "unspecified_normalised"), []
+        if sub == "header":
+            h = dict(HEADER_BASE["empty"], **COMBO_HEADERS[case["i"]])
+            res, fails = eval_header({"kind": "header", "base": "empty", "devs": [], "fields": h}, case["mode"], pal)
+            return res, [f + ("header_%d" % case["i"],) for f in fails]
+        if sub == "index_and_charge_width":
+            n = case["n"]
+            m = chain_mol(n, pal, {n - 1: -15, n - 2: 15, 0: -15, 99: -10, 9: -1})
+            p = PALETTES[pal]
+            m["coord"] = [[f32(float(p["base"][c]) + (i % 97) * float(p["step"][c])) for c in range(3)] for i in range(n)]
+            if n >= 1000 and case["ver"] == "V2000":
+                return "refused", []
+            fails = eval_mol(m, case["ver"], "ctab", pal)
+            return ("fail" if fails else "accepted"), [f + ("index_and_charge_width",) for f in fails]
+        if sub == "rd_option":
+            from biotite.interface.rdkit import from_mol, to_mol
+
+            Chem = rdkit()
+            opt, depth = case["opt"], case["depth"]
+            m = chain_mol(3, pal, {1: 1}, ["SINGLE", "DOUBLE"])
+            if opt in ("explicit_h_true", "add_hydrogen_true_with_h"):
+                m["elem"][2] = "H"
+                m["bonds"][(1, 2)] = "SINGLE"
+            mm = dict(m, ann=[])
+            S = rd_atoms(mm, depth)
+            k = max(1, depth)
+            coords = np.asarray(S.coord if depth else S.coord[None], dtype=np.float32)
+            if opt in ("3D", "2D"):
+                mol = to_mol(S)
+                b = from_mol(mol, conformer_id=opt, add_hydrogen=False)
+                if not isinstance(b, struc.AtomArrayStack):
+                    raise Fail("type", "from_mol(conformer_id='%s')" % opt, "AtomArrayStack", type(b).__name__)
+                if opt == "3D":
+                    rd_check_atoms(mm, b, coords, "conformer_id='3D'")
+                    rd_check_bonds(m, b, "default", "conformer_id='3D'")
+                else:
+                    if b.stack_depth() != 1 or not np.isnan(b.coord).all() or b.element.tolist() != m["elem"]:
+                        raise Fail("no_2d_conformer", "documented: one model of NaN when no conformer matches", "1 x NaN",
+                                   (b.stack_depth(), b.coord.tolist()))
+            else:
+                mol = to_mol(S, explicit_hydrogen=True) if opt.startswith("explicit") else to_mol(S)
+                if opt.startswith("explicit") and not all(a.GetNoImplicit() for a in mol.GetAtoms()):
+                    raise Fail("no_implicit_flag", "explicit_hydrogen=True: atoms not marked NoImplicit", True, False)
+                b = from_mol(mol, add_hydrogen=(True if opt == "add_hydrogen_true_with_h" else False))
+                if opt == "add_hydrogen_true_with_h":
+                    # hydrogens are explicit already and marked NoImplicit: nothing may be added
+                    pass
+                rd_check_atoms(mm, b, coords, opt)
+                rd_check_bonds(m, b, "default", opt)
+            return "accepted", []
+        raise ValueError(sub)
+    except Fail as f:
+        return "fail", [(site, f.mode, f.what, f.expected, f.observed, case.get("el") or case.get("opt") or sub)]
+
+
+# ---- derived: objects the library hands out, fed into every writing operation --------------------------
+DERIVE_OPS = ["file_v2000", "file_v3000", "sdf_record", "rdkit_model", "rdkit_stack_model", "mask", "reverse", "fancy",
+              "stack_model", "copy", "plus", "strided_slice"]
+DERIVE_TARGETS = ["ctab_V2000", "ctab_V3000", "mol", "sdf", "rdkit"]
+
+
+def derived_cases(tier):
+    for op in DERIVE_OPS:
+        for target in DERIVE_TARGETS:
+            yield {"kind": "audit", "fam": "derived", "op": op, "target": target}
+    for op in ("metadata", "header", "record", "record_forced"):
+        yield {"kind": "audit", "fam": "derived", "op": op, "target": "sdf_objects"}
+
+
+def model_from_atoms(a):
+    import biotite.structure as struc
+
+    n = a.array_length()
+    return {"n": n, "elem": [str(e) for e in a.element], "coord": [[np.float32(x) for x in row] for row in a.coord],
+            "charge": [int(c) for c in a.charge] if "charge" in a.get_annotation_categories() else None,
+            "bonds": {(int(i), int(j)): struc.BondType(int(t)).name for i, j, t in a.bonds.as_array()}, "dbt": None}
+
+
+def derive(op, pal):
+    """-> (derived AtomArray, model it must represent)"""
+    import biotite.structure as struc
+    from biotite.structure.io import mol as molio
+
+    base = order_base(pal)
+    base["bonds"] = {(0, 1): "SINGLE", (1, 2): "DOUBLE", (0, 3): "TRIPLE", (2, 3): "SINGLE"}
+    a = build_atoms(base)
+    if op in ("file_v2000", "file_v3000"):
+        f = molio.MOLFile()
+        f.set_structure(a, version="V2000" if op == "file_v2000" else "V3000")
+        d = f.get_structure()
+        return d, model_from_atoms(d)           # what the file holds (4-decimal coordinates) is the new input
+    if op == "sdf_record":
+        f = molio.SDFile()
+        molio.set_structure(f, a, record_name="x")
+        d = molio.SDFile.read(io.StringIO(f.serialize()))["x"].get_structure()
+        return d, model_from_atoms(d)
+    if op in ("rdkit_model", "rdkit_stack_model"):
+        from biotite.interface.rdkit import from_mol, to_mol
+
+        rdkit()
+        if op == "rdkit_model":
+            d = from_mol(to_mol(a), conformer_id=0, add_hydrogen=False)
+        else:
+            d = from_mol(to_mol(struc.stack([a, a])), add_hydrogen=False)[1]
+        return d, base
+    sel = {"mask": [0, 1, 3], "reverse": [3, 2, 1, 0], "fancy": [2, 0, 3]}
+    if op in sel:
+        idx = sel[op]
+        d = a[np.array([i in idx for i in range(4)])] if op == "mask" else (a[::-1] if op == "reverse" else a[np.array(idx)])
+        pos = {old: new for new, old in enumerate(idx)}
+        m = {"n": len(idx), "elem": [base["elem"][i] for i in idx], "coord": [base["coord"][i] for i in idx],
+             "charge": [base["charge"][i] for i in idx], "dbt": None,
+             "bonds": {(min(pos[i], pos[j]), max(pos[i], pos[j])): t for (i, j), t in base["bonds"].items()
+                       if i in pos and j in pos}}
+        return d, m
+    if op == "stack_model":
+        st = struc.stack([a, a, a])
+        st.coord[0] += 3
+        return st[2], base
+    if op == "copy":
+        return a.copy(), base
+    if op == "strided_slice":
+        big = a + a
+        d = big[::2]                                # atoms 0, 2 of each half: 0, 2, 4(=0'), 6(=2')
+        idx = [0, 2]
+        m = {"n": 4, "elem": [base["elem"][i] for i in idx] * 2, "coord": [base["coord"][i] for i in idx] * 2,
+             "charge": [base["charge"][i] for i in idx] * 2, "dbt": None, "bonds": {}}
+        return d, m
+    if op == "plus":
+        d = a + a[np.array([True, True, False, False])]
+        m = dict(base, n=6, elem=base["elem"] + base["elem"][:2], coord=base["coord"] + base["coord"][:2],
+                 charge=base["charge"] + base["charge"][:2], bonds=dict(base["bonds"]))
+        m["bonds"][(4, 5)] = "SINGLE"
+        return d, m
+    raise ValueError(op)
+
+
+def eval_derived(case):
+    import biotite.structure as struc
+    from biotite.structure.io import mol as molio
+
+    op, target, pal = case["op"], case["target"], case["pal"]
+    site = "derived[%s]" % op
+    try:
+        if target == "sdf_objects":
+            c = REUSE_CONTENTS["c2"]
+            m, ver, atoms = reuse_atoms("c2", pal)
+            r = molio.SDRecord(header=make_header(REUSE_HEADERS[c["h"]]), metadata=reuse_metadata(c["meta"]))
+            r.set_structure(atoms, version=ver)
+            f = molio.SDFile()
+            f["A"] = r
+            text = f.serialize()
+            g = molio.SDFile.read(io.StringIO(text))
+            f2 = molio.SDFile()
+            if op == "metadata":
+                r2 = molio.SDRecord(header=make_header(dict(REUSE_HEADERS[c["h"]])), metadata=g["A"].metadata)
+                r2.set_structure(atoms, version=ver)
+                f2["A"] = r2
+            elif op == "header":
+                r2 = molio.SDRecord(header=g["A"].header, metadata=reuse_metadata(c["meta"]))
+                r2.set_structure(g["A"].get_structure(), version=ver)
+                f2["A"] = r2
+                mf = molio.MOLFile()
+                mf.header = g["A"].header
+                mf.set_structure(atoms)
+                if header_tuple(molio.MOLFile.read(io.StringIO(reuse_text(mf, "mol"))).header) != header_tuple(g["A"].header):
+                    raise Fail("readback_header", "parsed header assigned to a MOLFile", None, None)
+            elif op == "record":
+                f2["A"] = g["A"]
+            else:
+                rr = g["A"]
+                rr.header, rr.metadata, rr.get_structure()
+                f2["A"] = rr
+            if f2.serialize() != text:
+                raise Fail("differs_from_direct", "SD file built from parsed %s differs from the file built directly" % op,
+                           text[:300], f2.serialize()[:300])
+            return "accepted", []
+        d, m = derive(op, pal)
+        snap = snapshot(d)
+        if target == "rdkit":
+            from biotite.interface.rdkit import from_mol, to_mol
+
+            rdkit()
+            mm = dict(m, ann=[])
+            back = from_mol(to_mol(d), add_hydrogen=False)
+            rd_check_atoms(mm, back, np.array(m["coord"], dtype=np.float32).reshape(1, m["n"], 3), "derived input")
+            rd_check_bonds(m, back, "default", "derived input")
+            fails = []
+        else:
+            ver, cont = (target[5:], "ctab") if target.startswith("ctab") else (None, target)
+            fails = eval_mol(m, ver, cont, pal, None, d)
+        if snapshot(d) != snap:
+            raise Fail("input_mutated", "derived input changed by the operation", None, None)
+        return ("fail" if fails else "accepted"), [f + (target,) for f in fails]
+    except Fail as f:
+        return "fail", [(site, f.mode, f.what, f.expected, f.observed, target)]
+
+
 # ---- driver ------------------------------------------------------------------------------------------------
 def audit_cases(tier):
     yield from alias_cases(tier)
     yield from flavour_cases(tier)
     yield from shape_cases(tier)
     yield from lazy_cases(tier)
+    yield from identity_cases(tier)
+    yield from combo_cases(tier)
+    yield from derived_cases(tier)
 
 
 def run_audit_case(ctx, case):
@@ -3252,6 +3687,12 @@ def run_audit_case(ctx, case):
         res, fails = eval_flavour(case)
     elif fam == "shape":
         res, fails = eval_shape(case)
+    elif fam == "identity":
+        fails = eval_identity(case)
+    elif fam == "combo":
+        res, fails = eval_combo(case)
+    elif fam == "derived":
+        res, fails = eval_derived(case)
     else:
         fails = eval_lazy(case)
     ctx.ev(1, 1)
@@ -3328,7 +3769,7 @@ def shards(tier, seed):
     out += [{"kind": "rd", "part": p, "of": k} for p in range(k)]
     k = 4 if q else 16
     out += [{"kind": "reuse", "part": p, "of": k} for p in range(k)]
-    out += [{"kind": "audit", "fam": fam} for fam in ("alias", "flavour", "shape", "lazy")]
+    out += [{"kind": "audit", "fam": fam} for fam in ("alias", "flavour", "shape", "lazy", "identity", "combo", "derived")]
     big = [s for s in out if s["kind"] == "big" and s["case"]["n"] >= 900]
     rest = [s for s in out if s not in big]
     r = seed % max(1, len(rest))
